@@ -64,3 +64,27 @@ def block_cases(T, M, li):
 def case_key(case):
     return (tuple(case["ppt"]), tuple((m, tuple(s)) for m, s in case["members"]),
             tuple(None if c is None else (c[0], tuple(map(tuple, c[1]))) for c in case.get("claims") or ()))
+
+
+# ------------------------------------------------------------------------------ C15
+def identical_sets(members):
+    return len({frozenset(s) for _, s in members}) <= 1
+
+
+def second_rounds(case):
+    """The second rounds of C15's quantifier for one first-round input:
+    ("same", members) always; when all members subscribe to the same topics also
+    ("minus", survivors, gone) for every non-empty proper subset of members that leaves and
+    ("plus", members + k new, k) for k = 1, 2 (new members subscribe like the others)."""
+    members = case["members"]
+    yield ("same", [list(m) for m in members], None)
+    if not identical_sets(members):
+        return
+    ids = [m for m, _ in members]
+    for r in range(1, len(ids)):
+        for gone in itertools.combinations(ids, r):
+            yield ("minus", [list(m) for m in members if m[0] not in gone], list(gone))
+    nxt = max(ids) + 1
+    for k in (1, 2):
+        new = [[nxt + j, list(members[0][1])] for j in range(k)]
+        yield ("plus", [list(m) for m in members] + new, k)
